@@ -71,9 +71,11 @@ Definition twice_tag (ts : list utree) (k : key) : string :=
 Definition in_domain (ts : list utree) : bool :=
   negb (Nat.eqb (length ts) 0) && forallb tree_ok ts && same_taxa_all ts.
 
-(** some tree is a well-formed tree on other taxa than the first *)
+(** well-formed trees whose taxon MULTISETS are not all the same: another name, a missing or an extra
+    one, or a name carried by two tips of one tree (whatever the counts) *)
 Definition differing_taxa (ts : list utree) : bool :=
-  forallb (fun t => wf t && Nat.leb 2 (degree t) && nodup_sorted (ssort (leaves t))) ts && negb (same_taxa_all ts).
+  forallb (fun t => wf t && Nat.leb 2 (degree t)) ts &&
+  (negb (forallb (fun t => nodup_sorted (ssort (leaves t))) ts) || negb (same_taxa_all ts)).
 
 Definition check_split (cutoff : Q) (ts : list utree) (g : list split) (k : key) : option string :=
   let n := length ts in
@@ -144,7 +146,11 @@ Definition judge_main (ts : list utree) (cutoff : Q) (o : sexp) : verdict :=
                  | None => VBad "no err in observation"
                  end
     | Some (Err m), Some gerr =>
-      if negb (String.eqb gerr m) then VCorr ("model: error " ++ m ++ "; implementation: " ++ (if String.eqb gerr "" then "no error" else gerr))
+      (* the oracle first: an accepted collection that the property rejects is a violation whatever the model says *)
+      if String.eqb gerr "" && negb (cutoff_ok cutoff) then VOracle ("threshold outside [0.5,1] accepted [model: error " ++ m ++ "]")
+      else if String.eqb gerr "" && differing_taxa ts
+      then VOracle ("collection whose trees do not have the same taxa accepted [model: error " ++ m ++ "]")
+      else if negb (String.eqb gerr m) then VCorr ("model: error " ++ m ++ "; implementation: " ++ (if String.eqb gerr "" then "no error" else gerr))
       else if negb (counts_agree ts) then VCorr "association-list model and hash-index model count differently"
       else if in_domain ts && cutoff_ok cutoff then VOracle ("valid collection rejected: " ++ gerr ++ rooted_tag)
       else VOk (negb (cutoff_ok cutoff) || differing_taxa ts) (if cutoff_ok cutoff then "err:taxa" else "err:cutoff")
